@@ -50,25 +50,50 @@ class Target:
         self.type_tests = type_tests or {}  # (dotted expr, class name) -> lean Bool for `type(expr) is Class`    # (var, attr) -> lean text of the Option behind an attribute tested with `is None`
 
 
+def _is_accessor(n, kind):
+    return any(isinstance(d, ast.Attribute) and d.attr == kind for d in n.decorator_list)
+
+
 def find_func(tree, cls, func, setter=False):
+    """The definition Python will RUN for `cls.func` (module-level `func` when cls is None): the LAST `def` of that name in the
+    body (a later `def` rebinds the name), getter / setter of a property told apart by their decorators.  A rebinding the
+    translator cannot follow -- `Cls.func = ...` / `setattr(Cls, "func", ...)` at module level, the name assigned in the class
+    body -- is Unsupported (status `lost`; the correspondence decides), never silently ignored."""
     body = tree.body
     if cls:
-        for n in body:
-            if isinstance(n, ast.ClassDef) and n.name == cls:
-                body = n.body
-                break
-        else:
+        classes = [n for n in body if isinstance(n, ast.ClassDef) and n.name == cls]
+        if not classes:
             raise Unsupported(f"class {cls} not found")
+        if len(classes) > 1:
+            raise Unsupported(f"class {cls} defined {len(classes)} times")
+        for n in ast.walk(tree):
+            if isinstance(n, (ast.Assign, ast.AugAssign, ast.AnnAssign)):
+                tgts = n.targets if isinstance(n, ast.Assign) else [n.target]
+                for t in tgts:
+                    if isinstance(t, ast.Attribute) and t.attr == func and isinstance(t.value, ast.Name) and t.value.id == cls:
+                        raise Unsupported(f"{cls}.{func} is re-bound by an assignment (line {n.lineno})")
+            if isinstance(n, ast.Call) and isinstance(n.func, ast.Name) and n.func.id == "setattr" and len(n.args) >= 2 \
+                    and isinstance(n.args[0], ast.Name) and n.args[0].id == cls \
+                    and isinstance(n.args[1], ast.Constant) and n.args[1].value == func:
+                raise Unsupported(f"{cls}.{func} is re-bound by setattr (line {n.lineno})")
+        body = classes[0].body
+    for n in body:
+        if isinstance(n, (ast.Assign, ast.AnnAssign)):
+            tgts = n.targets if isinstance(n, ast.Assign) else [n.target]
+            if any(isinstance(t, ast.Name) and t.id == func for t in tgts) and getattr(n, "value", None) is not None:
+                raise Unsupported(f"{func} is re-bound by an assignment (line {n.lineno})")
     cands = [n for n in body if isinstance(n, ast.FunctionDef) and n.name == func]
     if not cands:
         raise Unsupported(f"function {func} not found")
-    # a property with a setter: take the getter (first) unless the target asks for the setter
     if setter:
-        for n in cands:
-            if any(isinstance(d, ast.Attribute) and d.attr == "setter" for d in n.decorator_list):
-                return n
-        raise Unsupported(f"setter of {func} not found")
-    return cands[0]
+        setters = [n for n in cands if _is_accessor(n, "setter")]
+        if not setters:
+            raise Unsupported(f"setter of {func} not found")
+        return setters[-1]
+    plain = [n for n in cands if not _is_accessor(n, "setter") and not _is_accessor(n, "deleter")]
+    if not plain:
+        raise Unsupported(f"function {func} not found (only accessors)")
+    return plain[-1]
 
 
 class Tr:
